@@ -2,6 +2,10 @@
 """(run with /venv/bin/python: token streams differ between Python versions)
 Fingerprints of the source files each property is anchored in (AST with docstrings removed). A differing
 fingerprint never raises an alarm: it only makes the property's check search deeper on that run."""
+import sys
+if sys.version_info[:2] != (3, 12) and __name__ == "__main__":
+    sys.exit("run with /venv/bin/python (the harness interpreter): AST dumps differ between Python versions")
+
 import ast, hashlib, json, os, sys
 V = os.path.dirname(os.path.dirname(os.path.abspath(__file__)))
 
